@@ -3,6 +3,7 @@ package types
 import (
 	"net/http"
 	"net/url"
+	"regexp"
 
 	verif "github.com/zishang520/engine.io/v2/internal/zzverif"
 )
@@ -153,4 +154,35 @@ func VerifH_C17_cors() {
 		verif.Assert(hasToken(wire, "Origin") || hasToken(wire, "*"), "the response as sent carries Vary: Origin whenever the allowed origin depends on the request")
 	}
 	verif.Assert(w.hdr.Get("Access-Control-Allow-Origin") == acao, "the response as sent carries the computed Access-Control-Allow-Origin")
+}
+
+// VerifH_C17_two_regexp_policies: two CORS policies with regular-expression origins live in
+// one process (two servers, or one after the other): the same request Origin is judged by
+// each policy on its own -- a verdict of one policy never leaks into the other.
+func VerifH_C17_two_regexp_policies() {
+	pa := &Cors{Origin: regexp.MustCompile(`^https://a\.`), Credentials: true}
+	pb := &Cors{Origin: regexp.MustCompile(`^https://b\.`), Credentials: true}
+	origins := [3]string{"https://a.example", "https://b.example", "https://c.example"}
+	run := func(o *Cors, origin string) string {
+		w := &corsWriter{}
+		r := &http.Request{Method: "GET", URL: &url.URL{Path: "/engine.io/"}, Header: http.Header{}}
+		ctx := NewHttpContext(w, r)
+		verif.Cleanup(ctx.Flush)
+		ctx.Headers().Set("Origin", origin)
+		MiddlewareWrapper(o)(ctx, func(error) {})
+		return ctx.ResponseHeaders.Peek("Access-Control-Allow-Origin")
+	}
+	first := verif.Choose(2)
+	origin := origins[verif.Choose(3)]
+	pol := [2]*Cors{pa, pb}
+	for k := 0; k < 2; k++ {
+		i := (first + k) % 2
+		got := run(pol[i], origin)
+		allowed := (i == 0 && origin == origins[0]) || (i == 1 && origin == origins[1])
+		if allowed {
+			verif.Assert(got == origin, "an origin the policy's expression matches is reflected")
+		} else {
+			verif.Assert(got != origin, "an origin the policy's own expression does not match is never named, whatever another policy said about it")
+		}
+	}
 }
